@@ -57,7 +57,9 @@ class InternalCompiler(Compiler):
             # 2.1 Compile the expression
             iret = self.compile_expr(qc, symp_exp, sym=sym)
 
-            # 2.2 Map iret qubit to the symbol
+            # 2.2 Map iret qubit to the symbol; sym is now (re)defined, so the expressions
+            # computed using its old value are not valid anymore
+            self.expqmap.remove_referencing(sym)
             self.expqmap[sym] = iret
             qc.map_qubit(sym, iret, promote=not is_temp)
 
